@@ -287,7 +287,7 @@ func ruleRespNil(rule string) ruleFn {
 				if !ok {
 					return
 				}
-				callee := cl.Call.StaticCallee()
+				callee := calleeOf(&cl.Call)
 				if callee == nil || isJivaFn(callee) {
 					return
 				}
@@ -374,7 +374,7 @@ func ruleSignedIdx(rule string) ruleFn {
 			if !ok {
 				return nil, 0
 			}
-			callee := cl.Call.StaticCallee()
+			callee := calleeOf(&cl.Call)
 			if callee == nil || callee.Pkg == nil {
 				return nil, 0
 			}
